@@ -168,8 +168,9 @@ def _dsttm(R, v):
 
 @reg("DenseGenotypeMatrix", "gmat")
 def _gm(R, v):
-    mat = numpy.array([[R.randint(0, 2) for _ in range(v["nv"])] for _ in range(v["nt"])], dtype="int8")
-    return _group(DenseGenotypeMatrix(mat, ploidy=2, **_taxa_kw(R, v), **_vrnt_kw(R, v)), v, vrnt=True)
+    pl = R.choice([2, 2, 4, 6])                      # unphased calls of diploids and polyploids
+    mat = numpy.array([[R.randint(0, pl) for _ in range(v["nv"])] for _ in range(v["nt"])], dtype="int8")
+    return _group(DenseGenotypeMatrix(mat, ploidy=pl, **_taxa_kw(R, v), **_vrnt_kw(R, v)), v, vrnt=True)
 
 
 @reg("DensePhasedGenotypeMatrix", "gmat")
